@@ -15,7 +15,7 @@ initial state — every interleaving of API calls, clock jumps of any size, loop
 timer fired) and executor latencies — for every schedule oracle `nx` that is strictly increasing, every
 assignment `wk` of task ids to workers, any number of tasks and workers.
 -/
-import Kap.Proofs.C17Live
+import Kap.Proofs.C17Fuel
 import Kap.Proofs.C17Hist
 namespace Kap.Props.C17
 open Kap.C17
@@ -150,27 +150,53 @@ theorem quiescent_due_runs_wait_for_busy_worker (E : Env) (hincr : Incr E.nx) (a
   quiescent_due_busy (good_runActs hincr acts (good_init E))
     (tinv_runActs hincr acts hfrac tinv_init (good_init E)) hq
 
-/-- Full-strength op-level statement: after every harness op (with no mid-pass race) every due item waits for a
-busy worker. What is missing for it is only that `settle` always ENDS in a quiescent state, i.e. that the loop fuel
-(64) suffices — true when fewer than ~30 workers are in use (every pass that goes round again has made an idle
-worker busy), not proved. -/
-def due_runs_dispatched_stmt : Prop :=
-  ∀ (E : Env), Incr E.nx → (∀ id, E.wk id < 30) → ∀ (ops : List Op),
-    (∀ op ∈ ops, match op with | .sched _ _ _ _ frac => frac ≤ 0 | _ => True) →
-    let s := runOps E {} (ops.map (fun op => ([], op)))
-    ∀ it ∈ s.queue, it.whn ≤ s.now → (aget s.busy (E.wk it.id)).isSome = true
+/-- **The main loop always comes to rest, and `settle` always ends in a quiescent state**: started in ANY state
+(reachable or not), with no mid-pass race, what the harness does after every op — let the loop run, fire the timer,
+let it run, fire, let it run — ends in a state in which the loop cannot move and a firing timer changes nothing.
+The loop fuel (64) is never used up when fewer than 30 workers are in use: a pass of the inner loop that goes round
+again has handed an item to an idle worker (at most one such pass per worker, workers are only freed outside the
+loop) or has changed nothing at all (the loop spins on busy workers); every other pass leaves the inner loop, which
+is re-entered only through a tick, and only the timer makes ticks. The negative-duration `Reset` of the main loop
+(head not due) re-wakes the loop at once; that pass re-arms the same deadline and reproduces the state. -/
+theorem settle_ends_quiescent (E : Env) (hwk : ∀ id, E.wk id < 30) (s : St) : Quiescent E (settle E [] s) :=
+  settle_quiescent E 30 hwk (by decide) s
 
-/-- … proved under the explicit, decidable hypothesis that the state reached is quiescent. The driver evaluates
-`Quiescent` on the model state after EVERY op of every case (a failure is reported, never skipped), so on everything
-the correspondence run sees the hypothesis is checked, not assumed. -/
-theorem due_runs_dispatched_partial (E : Env) (hincr : Incr E.nx) (ops : List (List Nat × Op))
+/-- **Every due occurrence whose worker is idle gets dispatched** (op level, racy histories): after any non-empty
+sequence of harness ops — each op followed by the main loop running until it rests — of which the LAST had no
+mid-pass race (empty skip set; all earlier ops may have had arbitrary races), every queued item that is due is
+waiting for a BUSY worker. No `Quiescent` hypothesis any more: it is proved (`settle_ends_quiescent`). -/
+theorem due_runs_dispatched_after_racy_ops (E : Env) (hincr : Incr E.nx) (hwk : ∀ id, E.wk id < 30)
+    (ops : List (List Nat × Op))
     (hfrac : ∀ p ∈ ops, match p.2 with | .sched _ _ _ _ frac => frac ≤ 0 | _ => True)
-    (hq : Quiescent E (runOps E {} ops)) :
+    (hlast : ∀ p ∈ ops.getLast?, p.1 = []) :
     ∀ it ∈ (runOps E {} ops).queue, it.whn ≤ (runOps E {} ops).now →
       (aget (runOps E {} ops).busy (E.wk it.id)).isSome = true := by
-  obtain ⟨acts, hacts, hfr⟩ := runOps_acts_frac E ops hfrac {}
-  rw [hacts] at hq ⊢
-  exact quiescent_due_runs_wait_for_busy_worker E hincr acts hfr hq
+  by_cases hne : ops = []
+  · subst hne
+    intro it hit
+    simp [runOps] at hit
+  · have hq := runOps_quiescent E 30 hwk (by decide) ops {} hne hlast
+    obtain ⟨acts, hacts, hfr⟩ := runOps_acts_frac E ops hfrac {}
+    rw [hacts] at hq ⊢
+    exact quiescent_due_runs_wait_for_busy_worker E hincr acts hfr hq
+
+/-- **Liveness, full-strength op-level statement**: after every sequence of harness ops (with no mid-pass race)
+every due item waits for a busy worker — a due occurrence whose worker is idle has been dispatched. -/
+theorem due_runs_dispatched :
+    ∀ (E : Env), Incr E.nx → (∀ id, E.wk id < 30) → ∀ (ops : List Op),
+    (∀ op ∈ ops, match op with | .sched _ _ _ _ frac => frac ≤ 0 | _ => True) →
+    let s := runOps E {} (ops.map (fun op => ([], op)))
+    ∀ it ∈ s.queue, it.whn ≤ s.now → (aget s.busy (E.wk it.id)).isSome = true := by
+  intro E hincr hwk ops hfrac
+  refine due_runs_dispatched_after_racy_ops E hincr hwk _ ?_ ?_
+  · intro p hp
+    obtain ⟨op, hop, rfl⟩ := List.mem_map.mp hp
+    exact hfrac op hop
+  · intro p hp
+    rw [List.getLast?_map] at hp
+    simp only [Option.mem_def, Option.map_eq_some_iff] at hp
+    obtain ⟨a, _, rfl⟩ := hp
+    rfl
 
 /-- A concrete oracle: every schedule fires every 10 s; one worker. -/
 def E10 : Env := { nx := fun _ t => some (t + 10), wk := fun _ => 0 }
@@ -179,6 +205,18 @@ theorem E10_incr : Incr E10.nx := by
   intro sc t t' h
   simp only [E10, Option.some.injEq] at h
   omega
+
+/-- Non-vacuity of the liveness theorems: two tasks on the single worker, the clock jumps over several occurrences;
+task 1 is running, the due occurrence of task 2 (and the next one of task 1) wait in the queue for the busy worker,
+and the state `settle` ended in is quiescent with the loop SPINNING. After the run finishes the waiting occurrence
+is dispatched at once. -/
+example :
+    let ops : List Op := [.sched 1 0 3 0 0, .sched 2 1 0 5 0, .adv 40]
+    let s := runOps E10 {} (ops.map (fun op => ([], op)))
+    (∃ it ∈ s.queue, it.id = 2 ∧ it.whn ≤ s.now) ∧ s.spinning = true ∧ Quiescent E10 s ∧
+      Ev.start 1 10 13 ∈ s.trace ∧
+      Ev.start 2 15 15 ∈ (runOps E10 {} ((ops ++ [Op.done 1 .ok true]).map (fun op => ([], op)))).trace := by
+  decide
 
 /-! ### sub-second offsets (finding subsecond-offset-truncated) -/
 
